@@ -131,8 +131,9 @@ def main():
     if ck.args.replay:
         replay(ck, exe)
     thorough = ck.tier == "thorough"
-    budget = ck.args.deadline or (840.0 if thorough else 52.0)      # --deadline S overrides (validation on a loaded machine)
-    deadline = min(ck.deadline, ck.t0 + budget)
+    # the enumeration needs ~15 s (quick) / ~6 min (thorough) on 16 idle cores; on a loaded machine it may use what
+    # the global deadline of the run allows (vlib: 600 s quick, 3000 s thorough, or --deadline S), minus the time to report
+    deadline = max(ck.t0 + 20.0, ck.deadline - 30.0)
     jobs = []
     known = [pat for (p, pat, _t) in ck.known.findings if p == ck.pid]
     def add(tmpl, bits, alg, wset): jobs.append((exe, ck.tmp, tmpl, bits, alg, wset, deadline, known))
@@ -158,8 +159,14 @@ def main():
                     # step-th pattern (a fixed sub-family: 0x05, 0x15, ... / 0x03, 0x0b, ...)
                     if bits % step == (5 if tmpl == "net2d" else 3) and words_for(tmpl, "rest"): add(tmpl, bits, alg, "rest")
     # longest jobs first (deterministic order; results are merged order-independently)
-    cost = lambda j: -len(words_for(j[2], j[5]))
-    jobs.sort(key=lambda j: (cost(j), j[2], j[3], j[4], j[5]))   # noqa: known list is not part of the key
+    # order (deterministic; results are merged order-independently): the long jobs first -- these are the ones with the
+    # id, permutation, degree and swap transitions -- then the short ones, small templates before net2d, so that a cut
+    # by the deadline never removes a whole transition kind or template
+    prio = {"netc": 0, "netcy": 1, "net3d": 2, "lev": 3, "net2d": 4}
+    def order(j):
+        n = len(words_for(j[2], j[5]))
+        return (0 if n > 60 else 1, prio[j[2]] if n <= 60 else 0, -n, j[2], j[3], j[4], j[5])
+    jobs.sort(key=order)
     viol = {}
     cut = 0
     import concurrent.futures as cf
@@ -197,7 +204,7 @@ def main():
             "netcy (the same with x-y and y-z covariances; translation and axes transitions only) x 2^6. "
             "transitions (menu sizes %s): translation {(1e3,-2e3),(1e6,5e6)} (+500 m heights); zero of each direction set turned by {1e-4,100,199.9999,200,200.0001,399.9999} gon; "
             "all permutations of point records, of clusters and of the observations of each cluster (<=5 items: all n!-1; 6 items: 5 cyclic shifts + reversal + 5 adjacent "
-            "transpositions), covariance matrices permuted; 36 id maps (order reversing numeric; mixed 2-/3-/4-byte UTF-8; 40 characters; inner single blanks and no-break spaces; two generated families u2-0..15 / u3-0..15 of 2- and 3-byte UTF-8 ids whose continuation bytes between them take every value 0x80..0xBF in every position, with ids that differ in one continuation byte only and ids with an inner blank); gon -> d-m-s with stdev/covariances in arc seconds "
+            "transpositions), covariance matrices permuted; 46 id maps (order reversing numeric; 10 numeric-looking families: 1, 9, 10, 18, 19, 20, 25 digits around 2^31, 2^32, 2^63-1, 2^64-1 with ids differing in the last digit, leading zeros, signed-looking, mixed; mixed 2-/3-/4-byte UTF-8; 40 characters; inner single blanks and no-break spaces; two generated families u2-0..15 / u3-0..15 of 2- and 3-byte UTF-8 ids whose continuation bytes between them take every value 0x80..0xBF in every position, with ids that differ in one continuation byte only and ids with an inner blank); gon -> d-m-s with stdev/covariances in arc seconds "
             "for every non-empty subset of clusters + alternating observations; ends swapped for every non-empty subset of the distances; 8 axes-xy x 2 angles. "
             % json.dumps(menu).replace('"', ""))
     if thorough:
